@@ -42,6 +42,8 @@ def run(rep, idx, tier):
     rep.require("C18.4", 3)
     rep.require("C18.5", 2)
     rep.require("C18.6", 1)
+    rep.require("C18.7", 1)
+    name_ordering(rep, idx)
     from .c19 import shared_state
     shared_state(rep, idx, rule="C18.6", classes=["MemoryMap", "_Namespace"])
     namespace_sites(rep, idx)
@@ -377,3 +379,65 @@ def prefix_idiom(rep, fi, flag, idx=None):
                     "prefix conflicts between names of different length are missed")
             return
     rep.unk("C18.5", site, f"conflict test `{ast.unparse(second.test)}`", "not one of the recognised shapes")
+
+
+def name_ordering(rep, idx):
+    """Names are tuples whose parts may be strings *and* integers ('0' vs 0): Python cannot order such tuples (int < str raises
+    TypeError).  Wherever names are sorted (sorted / .sort / min / max over a collection of names) the key must map every
+    part through str(); sorting the raw name -- or a key that contains the raw name -- fails as soon as two names of equal
+    length differ in the type of one part."""
+    n = 0
+    for cname in ("_Namespace", "MemoryMap"):
+        cls = idx.find_class(cname)
+        for fs in cls.methods.values():
+            for f in fs:
+                for x in ast.walk(f.node):
+                    if not isinstance(x, ast.Call):
+                        continue
+                    fn = x.func.id if isinstance(x.func, ast.Name) else (x.func.attr if isinstance(x.func, ast.Attribute) else None)
+                    if fn not in ("sorted", "sort", "min", "max") or (fn in ("min", "max") and len(x.args) != 1):
+                        continue
+                    arg = x.args[0] if x.args else (x.func.value if fn == "sort" else None)
+                    if arg is None:
+                        continue
+                    src = ast.unparse(arg)
+                    if not any(k in src for k in ("_assignments", "names", "name")):
+                        continue                                    # not a collection of names
+                    if fn in ("min", "max") and not isinstance(arg, (ast.Name, ast.Attribute, ast.Call, ast.BinOp)):
+                        continue
+                    n += 1
+                    what = f"{fn}({src[:50]}...) orders names"
+                    key = next((k.value for k in x.keywords if k.arg == "key"), None)
+                    if key is None:
+                        rep.bad("C18.7", f.site, what, "no key: tuples with an integer part in one name and a string part in another cannot be "
+                                "ordered (TypeError), so a legal name is refused with an internal error", line=x.lineno)
+                        continue
+                    if isinstance(key, ast.Lambda) and len(key.args.args) == 1:
+                        p_ = key.args.args[0].arg
+                        raw = [y for y in ast.walk(key.body) if isinstance(y, ast.Name) and y.id == p_]
+                        # every use of the parameter must be as the iterable of a comprehension whose element is str()/repr()-mapped,
+                        # or inside len()
+                        safe = True
+                        par = {}
+                        for y in ast.walk(key.body):
+                            for ch in ast.iter_child_nodes(y):
+                                par[ch] = y
+                        for y in raw:
+                            q = par.get(y)
+                            if isinstance(q, ast.Call) and isinstance(q.func, ast.Name) and q.func.id == "len":
+                                continue
+                            if isinstance(q, ast.comprehension) and q.iter is y:
+                                comp = par.get(q)
+                                elt = getattr(comp, "elt", None)
+                                if isinstance(elt, ast.Call) and isinstance(elt.func, ast.Name) and elt.func.id in ("str", "repr"):
+                                    continue
+                            safe = False
+                        if safe:
+                            rep.ok("C18.7", f.site, what, "the key maps every part through str()")
+                        else:
+                            rep.bad("C18.7", f.site, what, f"the key `{ast.unparse(key)[:60]}` contains the raw name: two names of equal length "
+                                    "that differ in the type of a part (0 vs '0', an index vs a word) make the comparison raise TypeError",
+                                    line=x.lineno)
+                    else:
+                        rep.unk("C18.7", f.site, what, f"key `{ast.unparse(key)[:50]}` is not a one-argument lambda; whether it is type-safe is not decided")
+    rep.ok("C18.7", "-", "sorting of names was enumerated", f"{n} site(s)", nontrivial=False)
